@@ -60,7 +60,13 @@ MISSED_FIRST.update({
  "C15-D": "no rewrite changed the spacing inside tags and no target had `$value` next to ordinary fields; added the tag_spacing rewrite and the ValuePlus type",
  "C20-C": "no shape had an element containing a same-named child that must be skipped twice; added OvlRec",
 })
-# second round: change / needs are taken from the agent's NOTES.md
+ROUND3 = {"C01", "C04", "C07", "C08", "C10", "C11", "C16", "C17"}
+MISSED_FIRST.update({
+ "C01-D": "C01 ignored every empty Text event (left to C16, which did catch this one); C01 now accepts an empty Text only at the exact sites of known finding F6 and reports any other as an invented event",
+ "C08-D": "the Writer only ever wrote into a Vec; C08 now writes into a sink that takes 1/2/3/any bytes per write call, and C09 writes every event sequence into short sinks (sync, and async with Pending) and compares with the Vec output",
+ "C17-C": "payload generators excluded U+FEFF and the monitor demanded that no event contains it; U+FEFF is now generated as payload content (first/last/inner) where the encoding has it, and only the document's own mark must be removed",
+})
+# second and third round: change / needs are taken from the agent's NOTES.md
 def from_notes(d):
     t = open(d + '/NOTES.md').read()
     title = t.split('\n', 1)[0].lstrip('# ').strip()
@@ -81,7 +87,7 @@ for k, (change, needs) in S.items():
     d = '/verif/seeded/' + k
     conf = open(d + '/CONFIRM.txt').read().strip().split('\n') if os.path.exists(d + '/CONFIRM.txt') else []
     meta = {
-        "property": k[:3], "variant": k[4:], "round": 2 if k[4:] in "CD" else 1, "written_by": "fresh sub-agent given only the property text and a scratch worktree (nothing from /verif)",
+        "property": k[:3], "variant": k[4:], "round": (3 if k[:3] in ROUND3 else 2) if k[4:] in "CD" else 1, "written_by": "fresh sub-agent given only the property text and a scratch worktree (nothing from /verif)",
         "change": change, "needs_to_manifest": needs,
         "confirmed_by_me": {"how": "tools/confirm_seed.sh in the scratch worktree: patch applies; default-feature suite passes with it (all-features too where ALLFEAT=1); demo fails with it; demo passes without it", "log": conf},
         "checks_run_against_it": res.get(k, []),
